@@ -14,21 +14,21 @@ import (
 )
 
 func init() {
-	register(&Rule{ID: "R-PAIRING", Min: 15, Run: rulePairing,
+	register(&Rule{ID: "R-PAIRING", Min: 12, Run: rulePairing,
 		Doc: "in every basic block the writes to X.Samples and X.SampleIDs of one step vector X come in pairs of the same shape (append one / append all / reslice / literal of equal length / element store): IDs and values keep equal length"})
 	register(&Rule{ID: "R-ONEPERSTEP", Min: 9, Run: ruleOnePerStep,
 		Doc: "every append of a step vector to a batch is nested in exactly one loop (counted through the helpers that receive the batch), or is the `if len(batch) <= step` idiom of the selectors: one step vector per evaluation step"})
-	register(&Rule{ID: "R-SENTINEL", Min: 3, Run: ruleSentinel,
+	register(&Rule{ID: "R-SENTINEL", Min: 2, Run: ruleSentinel,
 		Doc: "every call of a FunctionCall value whose reachable kernels can return InvalidSample compares the result with the sentinel and uses its value only on the valid branch"})
 	register(&Rule{ID: "R-POINTFIELDS", Min: 20, Run: rulePointFields,
 		Doc: "for every kernel reachable at the instant-function call site and every field of promql.Point it reads, the call site stores that field into the point buffer it passes"})
-	register(&Rule{ID: "R-KERNELBOUNDS", Min: 17, Run: ruleKernelBounds,
+	register(&Rule{ID: "R-KERNELBOUNDS", Min: 12, Run: ruleKernelBounds,
 		Doc: "every kernel that receives a window (matrix argument per the pinned parser.Functions) guards its indexing of Points: the number of points its body and helpers need is established by a dominating early-return length test"})
-	register(&Rule{ID: "R-ACCRESET", Min: 9, Run: ruleAccReset,
+	register(&Rule{ID: "R-ACCRESET", Min: 6, Run: ruleAccReset,
 		Doc: "for every accumulator literal, every captured variable written by AddFunc is assigned in Reset: tables are reused for every batch, so nothing of an earlier step survives"})
-	register(&Rule{ID: "R-USEAFTERPUT", Min: 15, Run: ruleUseAfterPut,
+	register(&Rule{ID: "R-USEAFTERPUT", Min: 10, Run: ruleUseAfterPut,
 		Doc: "after PutStepVector(v) the Samples/SampleIDs of v are not read again in the same iteration (same block or blocks it dominates before the loop back edge)"})
-	register(&Rule{ID: "R-RESULTSHAPE", Min: 4, Run: ruleResultShape,
+	register(&Rule{ID: "R-RESULTSHAPE", Min: 3, Run: ruleResultShape,
 		Doc: "in Exec the range-query result is sorted and only non-empty series are kept, and instant samples/scalars are stamped with the query's evaluation time"})
 
 	mutant(Mutant{Rule: "R-PAIRING", Name: "noarg-no-id", File: "execution/function/operator.go",
@@ -1124,7 +1124,7 @@ func ruleUseAfterPut(p *core.Program) []core.Obligation {
 }
 
 func init() {
-	register(&Rule{ID: "R-PUTORDER", Min: 10, Run: rulePutOrder,
+	register(&Rule{ID: "R-PUTORDER", Min: 8, Run: rulePutOrder,
 		Doc: "a batch handed back with PutVectors is not iterated afterwards (a deferred PutVectors runs at exit), and a step vector that was sent to a worker is recycled only after that worker's GetOutput: in functions that use the worker API every PutStepVector is dominated by a GetOutput call"})
 	mutant(Mutant{Rule: "R-PUTORDER", Name: "batch-recycled-before-loop", File: "execution/aggregate/khashaggregate.go",
 		Old: "\tdefer a.next.GetPool().PutVectors(in)\n\n\targs, err := a.paramOp.Next(ctx)", New: "\ta.next.GetPool().PutVectors(in)\n\n\targs, err := a.paramOp.Next(ctx)", Expect: "kAggregate"})
